@@ -5,6 +5,8 @@
 From Coq Require Import List ZArith Bool Lia.
 From Ivv Require Import Core.Kernel Core.CoreTypes Core.CoreFd Core.CoreModel Core.Monitors Core.GuardMon Core.CoreSpec
   Core.CoreInv Core.CoreRel Core.CoreCodes Core.CoreCodes2 Core.CoreExamples.
+From Ivv Require Small.TlsModel Small.TlsProofs Small.TlsLink Gen.LeafTls.
+From Ivv Require Small.ListPtrModel Small.ListPtrBase Small.ListPtrOps Small.ListPtrOps2 Small.ListPtrOps3 Small.ListPtrTop.
 Import ListNotations.
 Local Open Scope Z_scope.
 
@@ -40,3 +42,222 @@ Proof.
   intros be H. split; [apply ex_all_wf; cbn [In] in H; intuition lia|].
   pose proof (ex_all_runs be H) as R. cbv zeta in R. tauto.
 Qed.
+
+
+(* ======================================================================================================
+   The two small pieces every other model abstracts away, inside the verified model:
+   src/iv_tls.c (the per-thread state block with module areas at aligned offsets) and
+   src/include/iv_list.h (the intrusive circular doubly linked lists under every registration list).
+   ====================================================================================================== *)
+
+Section Tls.
+Import Small.TlsModel Small.TlsProofs.
+
+(* iv_tls.c layout.  For EVERY sequence of registrations made before iv_init with sizes >= 0 and every
+   sizeof(struct iv_state) = S >= 1: registration never aborts and keeps ids / sizes / hooks / order; the total
+   is a multiple of 16 and >= S; every offset is a multiple of 16, >= S (so the area is disjoint from struct
+   iv_state = [0, S)), not 0 (so the "unregistered" test of __iv_tls_user_ptr cannot misfire), and the area
+   [off, off + size) lies inside [0, total); areas are laid out in registration order (before u v = u's area ends
+   at or before v's starts) hence pairwise disjoint; the total is align16 S + the sum of the sizes rounded up *)
+Theorem C18_tls_areas_disjoint_aligned :
+  forall S us, 1 <= S -> sizes_ok us ->
+  exists t, tls_register_all (tls_start S) us = Done t /\
+    map u_id (t_users t) = map u_id us /\ map u_size (t_users t) = map u_size us /\
+    map u_init (t_users t) = map u_init us /\ map u_deinit (t_users t) = map u_deinit us /\
+    tls_total_state_size t mod 16 = 0 /\ S <= tls_total_state_size t /\
+    Forall (fun u => u_off u mod 16 = 0 /\ S <= u_off u /\ u_off u <> 0 /\
+                     0 <= u_off u /\ u_off u + u_size u <= tls_total_state_size t) (t_users t) /\
+    ForallOrdPairs before (t_users t) /\
+    ForallOrdPairs area_disjoint (t_users t) /\
+    tls_total_state_size t = align16 S + fold_right (fun u acc => align16 (u_size u) + acc) 0 us.
+Proof. exact tls_areas_disjoint_aligned. Qed.
+Print Assumptions C18_tls_areas_disjoint_aligned.
+
+(* iv_tls_thread_init calls every non-NULL init hook exactly once, in registration order, each with the area of
+   its own user; iv_tls_thread_deinit likewise; after iv_init every registration attempt aborts *)
+Theorem C18_tls_hooks_order :
+  forall S us, 1 <= S -> sizes_ok us -> NoDup (map u_id us) ->
+  exists t, tls_register_all (tls_start S) us = Done t /\
+    let '(t1, ic) := tls_thread_init t in
+    let dc := tls_thread_deinit t1 in
+    map fst ic = map u_id (filter u_init us) /\ NoDup (map fst ic) /\
+    map fst dc = map u_id (filter u_deinit us) /\ NoDup (map fst dc) /\
+    (forall id off, In (id, off) ic -> exists u, In u (t_users t) /\ u_id u = id /\ u_off u = off /\ u_init u = true) /\
+    (forall id off, In (id, off) dc -> exists u, In u (t_users t) /\ u_id u = id /\ u_off u = off /\ u_deinit u = true) /\
+    (forall u, tls_user_register t1 u = Fatal).
+Proof. exact tls_hooks_order. Qed.
+Print Assumptions C18_tls_hooks_order.
+
+(* __iv_tls_user_ptr: a registered user gets state + its offset (NULL without a state block), never the abort;
+   a struct whose state_offset is still 0 aborts *)
+Theorem C18_tls_user_ptr :
+  (forall S us, 1 <= S -> sizes_ok us ->
+     exists t, tls_register_all (tls_start S) us = Done t /\
+       forall u, In u (t_users t) ->
+         tls_user_ptr true u = Done (Some (u_off u)) /\ tls_user_ptr false u = Done None) /\
+  (forall b u, u_off u = 0 -> tls_user_ptr b u = Fatal).
+Proof. split; [exact tls_user_ptr_registered | exact tls_user_ptr_unregistered]. Qed.
+Print Assumptions C18_tls_user_ptr.
+
+(* the bit arithmetic: (x + 15) & ~15 = 16 * ((x + 15) / 16); and the int-overflow bound, explicit: the C
+   computation (int + size_t in unsigned long, & (unsigned long)~15, converted back to int) equals the model's as
+   long as last_offset + sizeof_state <= 2^31 - 16; the first sizes beyond that store a NEGATIVE last_offset; for a
+   whole registration sequence it suffices that the final total stays below 2^31 *)
+Theorem C18_tls_offset_arith :
+  (forall x, 0 <= x < 2147483648 - 15 ->
+     align16 x = 16 * ((x + 15) / 16) /\ x <= align16 x < x + 16 /\ align16 x mod 16 = 0 /\ align16 x < 2147483648) /\
+  (forall last size, 0 <= last -> 0 <= size -> last + size <= 2147483648 - 16 ->
+     c_advance last size = tls_advance last size) /\
+  (forall last size, 0 <= last -> 0 <= size -> 2147483648 - 16 < last + size <= 4294967296 - 16 ->
+     c_advance last size = tls_advance last size - 4294967296 /\ c_advance last size < 0) /\
+  (forall us last, 0 <= last -> last mod 16 = 0 -> sizes_ok us ->
+     last + fold_right (fun u acc => align16 (u_size u) + acc) 0 us < 2147483648 ->
+     forall l1 u l2, us = l1 ++ u :: l2 ->
+       let cur := last + fold_right (fun u acc => align16 (u_size u) + acc) 0 l1 in
+       c_advance cur (u_size u) = tls_advance cur (u_size u)).
+Proof.
+  split; [exact align16_int_range |]. split; [exact c_advance_exact |]. split; [exact c_advance_overflow |].
+  exact tls_no_int_overflow.
+Qed.
+Print Assumptions C18_tls_offset_arith.
+
+(* tie (a): the translation of iv_tls_user_register and of the initialiser of last_offset, regenerated from the
+   current C source on every run (Gen/LeafTls.v), IS the model's computation: stored state_offset, new last_offset,
+   the abort after iv_init, and the list primitive called (1 = iv_list_add_tail) *)
+Theorem C18_tls_leaf :
+  (forall S, Ivv.Gen.LeafTls.tls_initial_offset S = t_last (tls_start S)) /\
+  (forall t u,
+     Ivv.Gen.LeafTls.tls_user_register (u_size u) (if t_inited t then 1 else 0) (t_last t) =
+     match tls_user_register t u with
+     | Done (t', u') => Some (0, u_off u', t_last t', 1)
+     | Fatal => None
+     end).
+Proof. split; [exact Small.TlsLink.leaf_tls_initial_offset | exact Small.TlsLink.leaf_tls_user_register]. Qed.
+Print Assumptions C18_tls_leaf.
+
+(* non-vacuity: S = 1424 (the value on this platform), the five users the library registers plus four of the
+   harness with sizes 24, 0, 100, 7: offsets as observed on the implementation, hooks in order *)
+Example C18_tls_nonvacuous :
+  let us := [mkUser 1000 80 true false 0; mkUser 1001 24 true true 0; mkUser 1002 16 true false 0;
+             mkUser 1003 16 true true 0; mkUser 1004 232 true false 0;
+             mkUser 0 24 true true 0; mkUser 1 0 true false 0; mkUser 2 100 false false 0; mkUser 3 7 false true 0] in
+  sizes_ok us /\ NoDup (map u_id us) /\
+  match tls_run_all 1424 us with
+  | Done r => map u_off (r_users r) = [1424; 1504; 1536; 1552; 1568; 1808; 1840; 1840; 1952] /\ r_total r = 1968 /\
+              map fst (r_init_calls r) = [1000; 1001; 1002; 1003; 1004; 0; 1] /\
+              map fst (r_deinit_calls r) = [1001; 1003; 0; 3] /\ r_late r = true
+  | Fatal => False
+  end /\
+  c_advance 2147483632 1 = -2147483648.
+Proof.
+  cbv zeta. split; [| split; [| split]].
+  - repeat constructor; discriminate.
+  - repeat constructor; cbn; intuition discriminate.
+  - vm_compute. repeat split; reflexivity.
+  - vm_compute. reflexivity.
+Qed.
+End Tls.
+
+Section Lists.
+Import Small.ListPtrModel Small.ListPtrBase Small.ListPtrOps Small.ListPtrOps2 Small.ListPtrOps3 Small.ListPtrTop.
+Local Close Scope Z_scope.
+
+(* iv_list.h at pointer level.  Rep s head l: in store s the circular list with head `head` holds exactly the
+   nodes l, in order -- following next from head visits l and returns to head, prev is the inverse of next on the
+   way, no node occurs twice.  Every operation, run on ANY store that represents its argument lists, succeeds (no
+   NULL / dangling dereference) and yields a store representing the result of the obvious list operation *)
+Theorem C18_list_ops_refine :
+  (forall s h, alloc s h -> exists s', list_init s (Some h) = Ok s' /\ Rep s' h []) /\
+  (forall s h l n, Rep s h l -> alloc s n -> ~ In n (h :: l) ->
+     exists s', list_add s (Some n) (Some h) = Ok s' /\ Rep s' h (n :: l)) /\
+  (forall s h l n, Rep s h l -> alloc s n -> ~ In n (h :: l) ->
+     exists s', list_add_tail s (Some n) (Some h) = Ok s' /\ Rep s' h (l ++ [n])) /\
+  (forall s h l n, Rep s h l -> In n l ->
+     exists s', list_del s (Some n) = Ok s' /\ Rep s' h (remove Pos.eq_dec n l) /\
+                nxt s' n = Some None /\ prv s' n = Some None) /\
+  (forall s h l1 n l2, Rep s h (l1 ++ n :: l2) ->
+     exists s', list_del_init s (Some n) = Ok s' /\ Rep s' h (l1 ++ l2) /\ Rep s' n [] /\
+                list_empty s' (Some n) = Ok true) /\
+  (forall s h l, Rep s h l -> list_empty s (Some h) = Ok (match l with [] => true | _ => false end)) /\
+  (forall s h l n, Rep s h l -> In n l -> list_empty s (Some n) = Ok false) /\
+  (forall s a la h lh, Rep s a la -> Rep s h lh -> disjoint (h :: lh) (a :: la) ->
+     exists s', list_splice s (Some a) (Some h) = Ok s' /\ Rep s' h (la ++ lh)) /\
+  (forall s a la h lh, Rep s a la -> Rep s h lh -> disjoint (h :: lh) (a :: la) ->
+     exists s', list_splice_tail s (Some a) (Some h) = Ok s' /\ Rep s' h (lh ++ la)) /\
+  (forall s a la h lh, Rep s a la -> Rep s h lh -> disjoint (h :: lh) (a :: la) ->
+     exists s', list_splice_init s (Some a) (Some h) = Ok s' /\ Rep s' h (la ++ lh) /\ Rep s' a []) /\
+  (forall s a la h lh, Rep s a la -> Rep s h lh -> disjoint (h :: lh) (a :: la) ->
+     exists s', list_splice_tail_init s (Some a) (Some h) = Ok s' /\ Rep s' h (lh ++ la) /\ Rep s' a []) /\
+  (forall s o l n, Rep s o l -> alloc s n -> ~ In n (o :: l) ->
+     exists s', list_steal s (Some o) (Some n) = Ok s' /\ Rep s' n l /\ Rep s' o []) /\
+  (forall s h l fuel, Rep s h l -> (length l < fuel)%nat -> list_for_each fuel body_nop s (Some h) = Ok (s, l)) /\
+  (forall v s h l fuel, Rep s h l -> (length l < fuel)%nat ->
+     exists s', list_for_each_safe fuel (body_del v) s (Some h) = Ok (s', l) /\
+                Rep s' h (filter (fun x => negb (mem_pos x v)) l)) /\
+  (forall v s h l fuel, Rep s h l -> (length l < fuel)%nat ->
+     exists s', list_for_each_safe fuel (body_del_init v) s (Some h) = Ok (s', l) /\
+                Rep s' h (filter (fun x => negb (mem_pos x v)) l)).
+Proof. exact list_ops_refine. Qed.
+Print Assumptions C18_list_ops_refine.
+
+(* frame.  touches s s' N P: s' differs from s at most in the next fields of the nodes N and the prev fields of
+   the nodes P, and allocates nothing.  Each operation touches only the head, the node and their neighbours
+   (first_of / last_of, themselves nodes of the list: last clause); nodes outside are bit-for-bit unchanged and
+   every list disjoint from them survives *)
+Theorem C18_list_frame :
+  (forall s h, alloc s h ->
+     exists s', list_init s (Some h) = Ok s' /\ touches s s' [h] [h]) /\
+  (forall s h l n, Rep s h l -> alloc s n -> ~ In n (h :: l) ->
+     exists s', list_add s (Some n) (Some h) = Ok s' /\ touches s s' [n; h] [n; first_of h l]) /\
+  (forall s h l n, Rep s h l -> alloc s n -> ~ In n (h :: l) ->
+     exists s', list_add_tail s (Some n) (Some h) = Ok s' /\ touches s s' [n; last_of h l] [n; h]) /\
+  (forall s h l1 n l2, Rep s h (l1 ++ n :: l2) ->
+     exists s', list_del s (Some n) = Ok s' /\ touches s s' [n; last_of h l1] [n; first_of h l2]) /\
+  (forall s h l1 n l2, Rep s h (l1 ++ n :: l2) ->
+     exists s', list_del_init s (Some n) = Ok s' /\ touches s s' [n; last_of h l1] [n; first_of h l2]) /\
+  (forall s a la h lh, Rep s a la -> Rep s h lh -> disjoint (h :: lh) (a :: la) ->
+     exists s', list_splice s (Some a) (Some h) = Ok s' /\
+                touches s s' [h; last_of a la] [first_of a la; first_of h lh]) /\
+  (forall s a la h lh, Rep s a la -> Rep s h lh -> disjoint (h :: lh) (a :: la) ->
+     exists s', list_splice_tail s (Some a) (Some h) = Ok s' /\
+                touches s s' [last_of h lh; last_of a la] [first_of a la; h]) /\
+  (forall s a la h lh, Rep s a la -> Rep s h lh -> disjoint (h :: lh) (a :: la) ->
+     exists s', list_splice_init s (Some a) (Some h) = Ok s' /\
+                touches s s' [a; h; last_of a la] [a; first_of a la; first_of h lh]) /\
+  (forall s a la h lh, Rep s a la -> Rep s h lh -> disjoint (h :: lh) (a :: la) ->
+     exists s', list_splice_tail_init s (Some a) (Some h) = Ok s' /\
+                touches s s' [a; last_of h lh; last_of a la] [a; first_of a la; h]) /\
+  (forall s o l n, Rep s o l -> alloc s n -> ~ In n (o :: l) ->
+     exists s', list_steal s (Some o) (Some n) = Ok s' /\
+                touches s s' [o; n; last_of o l] [o; n; first_of o l]) /\
+  (forall v s h l fuel, Rep s h l -> (length l < fuel)%nat ->
+     exists s', list_for_each_safe fuel (body_del v) s (Some h) = Ok (s', l) /\
+                (forall k, ~ In k (h :: l) -> PM.find k s' = PM.find k s) /\ (forall k, alloc s' k <-> alloc s k)) /\
+  (forall s s' N P k, touches s s' N P -> ~ In k N -> ~ In k P -> PM.find k s' = PM.find k s) /\
+  (forall s s' N P h l, touches s s' N P -> disjoint (h :: l) (N ++ P) -> Rep s h l -> Rep s' h l) /\
+  (forall h l, In (first_of h l) (h :: l) /\ In (last_of h l) (h :: l)).
+Proof. exact list_frame. Qed.
+Print Assumptions C18_list_frame.
+
+(* non-vacuity: a pool of 6 nodes, heads 1 and 2; list 1 built with add_tail 3, add_tail 4, add 5 is [5; 3; 4],
+   list 2 = [6]; deleting 3 inside iv_list_for_each_safe visits 5, 3, 4 and leaves [5; 4]; the same deletion inside
+   the plain iv_list_for_each dereferences NULL; del_init leaves the node testing "empty" *)
+Example C18_list_nonvacuous :
+  match ex_store with
+  | Ok s =>
+    list_for_each 8 body_nop s (Some 1%positive) = Ok (s, [5; 3; 4]%positive) /\
+    list_for_each 8 body_nop s (Some 2%positive) = Ok (s, [6]%positive) /\
+    (match list_for_each_safe 8 (body_del [3%positive]) s (Some 1%positive) with
+     | Ok (s', vis) => vis = [5; 3; 4]%positive /\ list_for_each 8 body_nop s' (Some 1%positive) = Ok (s', [5; 4]%positive) /\
+                       field s' 3%positive = Some (None, None) /\ field s' 6%positive = field s 6%positive
+     | _ => False
+     end) /\
+    list_for_each 8 (body_del [3%positive]) s (Some 1%positive) = ErrNull /\
+    (match list_del_init s (Some 3%positive) with
+     | Ok s' => list_empty s' (Some 3%positive) = Ok true /\ list_empty s (Some 3%positive) = Ok false
+     | _ => False
+     end)
+  | _ => False
+  end.
+Proof. vm_compute. repeat split; reflexivity. Qed.
+End Lists.
